@@ -11,6 +11,7 @@ import (
 	"bufio"
 	"encoding/hex"
 	"fmt"
+	"net"
 	"os"
 	"strings"
 	"testing"
@@ -22,6 +23,42 @@ type opFunc func(args []string) string
 var vOps = map[string]opFunc{}
 
 func vReg(name string, f opFunc) { vOps[name] = f }
+
+var vWireDead bool
+
+// vPortsFree: can every (address, udp-port / tcp-port) of this YAML configuration text be bound right now?
+func vPortsFree(yaml string) bool {
+	addr := ""
+	for _, ln := range strings.Split(yaml, "\n") {
+		t := strings.TrimSpace(strings.TrimPrefix(strings.TrimSpace(ln), "- "))
+		if strings.HasPrefix(t, "address:") {
+			addr = strings.TrimSpace(strings.TrimPrefix(t, "address:"))
+		}
+		for _, k := range []string{"udp-port:", "tcp-port:"} {
+			if !strings.HasPrefix(t, k) || addr == "" {
+				continue
+			}
+			port := strings.TrimSpace(strings.TrimPrefix(t, k))
+			if port == "0" || port == "" {
+				continue
+			}
+			if k == "udp-port:" {
+				c, err := net.ListenPacket("udp", addr+":"+port)
+				if err != nil {
+					return false
+				}
+				c.Close()
+			} else {
+				c, err := net.Listen("tcp", addr+":"+port)
+				if err != nil {
+					return false
+				}
+				c.Close()
+			}
+		}
+	}
+	return true
+}
 
 func hx(s string) string {
 	if len(s) == 0 {
@@ -62,6 +99,18 @@ func vExec(line string) (res string) {
 	fn, ok := vOps[f[0]+" "+f[1]]
 	if !ok {
 		return "bad-op"
+	}
+	if f[0] == "wire" {
+		// a real-socket scenario whose service ports were already taken (a concurrent check, an earlier scenario's
+		// service) cannot be run: every op up to its `wire end` answers not-run
+		if f[1] == "end" {
+			defer func() { vWireDead = false }()
+		} else if vWireDead {
+			return "not-run"
+		} else if (f[1] == "start" || f[1] == "startall") && len(f) > 2 && !vPortsFree(unhx(f[2])) {
+			vWireDead = true
+			return "not-run"
+		}
 	}
 	return fn(f[2:])
 }
